@@ -77,3 +77,19 @@ def run(ctx):
         r.check("C03.3", reach_stop and stops, "eof-chain[%s]" % short(s), "_tokenizer.py",
                 "from state %s the end of input never stops tokenization" % short(s), detail={"state": short(s), "chain": len(visited)})
     r.extra["tokenizer_epsilon_edges"] = n_eps
+    # loops inside single states: the CDATA section scanner must leave its `while True` at EOF
+    r.check("C03.3", getattr(tm, "cdata_eof_exit", False), "cdata-section-eof-exit", "_tokenizer.py",
+            "the CDATA section state has no exit at end of input: `<svg><![CDATA[x` never finishes tokenizing",
+            detail={"eof_exit": getattr(tm, "cdata_eof_exit", False)})
+    # every other `while` in a state method or helper reads a character per iteration and stops at EOF
+    import ast as _ast
+    from ..repo import norm as _norm
+    for mn, m in tm.cls.methods.items():
+        for w in [n for n in _ast.walk(m.node) if isinstance(n, _ast.While)]:
+            if mn in ("cdataSectionState", "__iter__"):
+                continue
+            t = _norm(w.test)
+            stops = "EOF" in t or "charStack" == t or any(
+                isinstance(x, _ast.Break) for x in _ast.walk(w)) and "EOF" in _norm(w)
+            r.check("C03.3", stops, "loop-stops-at-eof::%s::while %s" % (mn, t[:40]), "_tokenizer.py:%d" % w.lineno,
+                    "the loop `while %s` in %s has no end-of-input exit" % (t[:60], mn), detail={"method": mn})
